@@ -48,6 +48,8 @@ K_SELFCONFLICT = "self-conflicting source set: two bindings of one variable are 
 
 K_CLOSURE = ("narrowed parameter read through a closure: a nested function/lambda reads a parameter of the enclosing "
              "function that is tested by isinstance/is None on the path; the closure sees only the narrowed binding")
+K_NOTRUN_CALLEE = ("callee (or a function it calls) is also called on a source line that never executed: its body was "
+                   "analysed under that call site and the memoised result is re-used (return type lacks the value)")
 
 CAPTURE = {}
 _installed = False
@@ -478,6 +480,11 @@ def closure_signature(tree, func_names):
       if isinstance(n, ast.Compare) and isinstance(n.left, ast.Name) and any(
           isinstance(o, (ast.Is, ast.IsNot)) for o in n.ops):
         tested.add(n.left.id)
+      if isinstance(n, (ast.If, ast.IfExp, ast.While)):
+        # any narrowing test, including plain truthiness (`if p:` / `if not p:` / `p and ...`)
+        for m in ast.walk(n.test):
+          if isinstance(m, ast.Name):
+            tested.add(m.id)
     for n in ast.walk(fn):
       if n is fn or not isinstance(n, (ast.Lambda, ast.FunctionDef)):
         continue
@@ -500,3 +507,40 @@ def called_functions(tree, name):
         if isinstance(c, ast.Call) and isinstance(c.func, ast.Name):
           out.add(c.func.id)
   return out
+
+
+def notrun_callee_signature(tree, callee, executed_lines, called_sites=None):
+  """The callee, or a module-level function it (transitively) calls, is also called at a call site that did
+  not run (line never executed, or - for module-level sites - no call event observed from that line)."""
+  import ast
+  in_def = set()
+  for d in ast.walk(tree):
+    if isinstance(d, (ast.FunctionDef, ast.Lambda)):
+      for x in ast.walk(d):
+        if isinstance(x, ast.Call):
+          in_def.add(id(x))
+  funcs = {n.name: n for n in tree.body if isinstance(n, ast.FunctionDef)}
+  for cls in [n for n in tree.body if isinstance(n, ast.ClassDef)]:
+    for n in cls.body:
+      if isinstance(n, ast.FunctionDef):
+        funcs.setdefault(n.name, n)
+  start = callee.split(".")[-1]
+  group, todo = set(), [start]
+  while todo:
+    f = todo.pop()
+    if f in group or f not in funcs:
+      continue
+    group.add(f)
+    for c in ast.walk(funcs[f]):
+      if isinstance(c, ast.Call):
+        nm = c.func.id if isinstance(c.func, ast.Name) else (c.func.attr if isinstance(c.func, ast.Attribute) else None)
+        if nm:
+          todo.append(nm)
+  for c in ast.walk(tree):
+    if isinstance(c, ast.Call):
+      nm = c.func.id if isinstance(c.func, ast.Name) else (c.func.attr if isinstance(c.func, ast.Attribute) else None)
+      if nm in group and c.lineno not in executed_lines:
+        return {"function": nm, "call_line_not_executed": c.lineno}
+      if nm in group and called_sites is not None and id(c) not in in_def and (nm, c.lineno) not in called_sites:
+        return {"function": nm, "module_level_call_never_made_at_line": c.lineno}
+  return None
